@@ -283,3 +283,72 @@ def render_skr(resp: dict) -> str:
         out += "    </ResponseBundle>\n"
     out += "  </Response>\n</KSR>\n"
     return out
+
+
+# ------------------------------------------------------------------ generic plain-form rendering with layout freedom
+def ksr_tree(req: dict):
+    """(name, attrs, children|text) tree of a KSR request dict."""
+    def pol(name, p):
+        ch = [(t, [], fmt_dur(p[k])) for t, k in [("PublishSafety", "publish_safety"), ("RetireSafety", "retire_safety"),
+                                                  ("MaxSignatureValidity", "max_validity"), ("MinSignatureValidity", "min_validity"),
+                                                  ("MaxValidityOverlap", "max_overlap"), ("MinValidityOverlap", "min_overlap")]]
+        for a in p["algs"]:
+            inner = ("RSA", [("size", str(a[2])), ("exponent", str(a[3]))], "") if a[0] == "RSA" else (a[0], [("size", str(a[2]))], "")
+            ch.append(("SignatureAlgorithm", [("algorithm", str(a[1]))], [inner]))
+        return (name, [], ch)
+
+    def key(k):
+        return ("Key", [("keyIdentifier", k["id"]), ("keyTag", str(k["tag"]))],
+                [("TTL", [], str(k["ttl"])), ("Flags", [], str(k["flags"])), ("Protocol", [], str(k.get("proto", 3))),
+                 ("Algorithm", [], str(k["alg"])), ("PublicKey", [], base64.b64encode(k["pub"]).decode())])
+
+    def sig(s):
+        return ("Signature", [("keyIdentifier", s["id"])],
+                [("TTL", [], str(s["ttl"])), ("TypeCovered", [], "DNSKEY"), ("Algorithm", [], str(s["alg"])), ("Labels", [], str(s["labels"])),
+                 ("OriginalTTL", [], str(s["ottl"])), ("SignatureExpiration", [], fmt_dt(s["exp"])), ("SignatureInception", [], fmt_dt(s["inc"])),
+                 ("KeyTag", [], str(s["tag"])), ("SignersName", [], s["name"]), ("SignatureData", [], base64.b64encode(s["data"]).decode())])
+
+    bundles = []
+    for b in req["bundles"]:
+        ch = [("Inception", [], fmt_dt(b["inc"])), ("Expiration", [], fmt_dt(b["exp"]))] + [key(k) for k in b["keys"]] + [sig(s) for s in b["sigs"]]
+        ch += [("Signer", [("keyIdentifier", x)], "") for x in (b.get("signers") or [])]
+        bundles.append(("RequestBundle", [("id", b["id"])], ch))
+    attrs = [("id", req["id"]), ("domain", req["domain"]), ("serial", str(req["serial"]))]
+    if req.get("timestamp"):
+        attrs.append(("timestamp", fmt_dt(req["timestamp"])))
+    return ("KSR", attrs, [("Request", [], [("RequestPolicy", [], [pol("ZSK", req["zsk"])])] + bundles)])
+
+
+def skr_tree(resp: dict):
+    t = ksr_tree({**resp, "bundles": resp["bundles"]})
+    name, attrs, (request,) = t
+    _, _, rch = request
+    pol_zsk = rch[0][2][0]
+    ksk = ksr_tree({**resp, "zsk": resp["ksk"], "bundles": []})[2][0][2][0][2][0]
+    bundles = [("ResponseBundle", a, c) for (_, a, c) in rch[1:]]
+    return (name, attrs, [("Response", [], [("ResponsePolicy", [], [("KSK", [], ksk[2]), pol_zsk])] + bundles)])
+
+
+def render_tree(t, R=None, permute=False) -> str:
+    """Plain-form serialisation with random layout (R = random.Random or None for a canonical layout)."""
+    name, attrs, body = t
+    ws_in = (lambda: R.choice([" ", " ", "  ", "\t", " \t "])) if R else (lambda: " ")
+    ws_opt = (lambda: R.choice(["", "", " ", "\t", "  "])) if R else (lambda: "")
+    ws_el = (lambda: R.choice(["", " ", "\n", "\n  ", "\t", "\r\n", "\n\n    "])) if R else (lambda: "\n")
+    attrs = list(attrs)
+    if R and permute:
+        R.shuffle(attrs)
+    astr = "".join(ws_in() + f'{k}="{v}"' for k, v in attrs)
+    tail = ws_opt() if attrs else ""
+    if body == "" or body == []:
+        if attrs and (not R or R.random() < 0.5):
+            return f"<{name}{astr}{tail}/>"
+        return f"<{name}{astr}{tail}></{name}>"
+    if isinstance(body, str):
+        pad = ws_el if R else (lambda: "")
+        return f"<{name}{astr}{tail}>{pad()}{body}{pad()}</{name}>"
+    children = list(body)
+    if R and permute:
+        R.shuffle(children)
+    inner = "".join(ws_el() + render_tree(c, R, permute) for c in children)
+    return f"<{name}{astr}{tail}>{inner}{ws_el()}</{name}>"
